@@ -42,6 +42,140 @@ def _memberfn_callback_calls(fn, param_id):
     return out
 
 
+def range_get_rules(ctx, prog, rid):
+    # ---------------- R18.2 sibling range getters
+    for cls, store in (('FIX8::MemoryPersister', '_store'), ('FIX8::FilePersister', '_index')):
+        g = prog.fn1(cls + '::get', sig='FIX8::Session &')
+        ctx.saw(g)
+        gc = g.cfg
+        pfrom, pto, psess, pcb = g.param_ids
+        cbs = _memberfn_callback_calls(g, pcb)
+        ctx.need(len(cbs) >= 3, '%s::get: callback invocations not found' % cls)
+        nmr = [w for (w, m) in q.member_writes(g, RC + '_no_more_records') if w.children[1].strip(casts=True).value == 1]
+        ctx.need(nmr, '%s::get: no store `_no_more_records = true`' % cls)
+        # (a) start key
+        fnh = g.calls_to(cls + '::find_nearest_highest_seqnum')
+        okstart = False
+        if len(fnh) == 1:
+            a0, a1 = fnh[0].args
+            lastdefs = q.origins(g, a1, definite_out_calls=(cls + '::get_last_seqnum',))
+            okstart = q.refers_to_decl(a0, pfrom) and bool(lastdefs) and all(k == 'out' and n.callee_qp == cls + '::get_last_seqnum' for k, n in lastdefs)
+        ctx.check(okstart, rid, cls + '::get#start', g.loc, 'iteration starts at find_nearest_highest_seqnum(from, get_last_seqnum())')
+        holder = fnh[0].parent
+        while holder is not None and holder.k != 'DeclStmt':
+            holder = holder.parent
+        start_decl = None
+        if holder is not None:
+            for d, init in holder.r['decls']:
+                if init >= 0 and any(x == fnh[0] for x in g.node(init).walk()):
+                    start_decl = d
+        finds = [c for c in g.calls() if c.callee is not None and c.callee.get('n') == 'find' and c.obj is not None and
+                 q.refers_to_member(c.obj, cls + '::' + store) and c.args and start_decl is not None and q.refers_to_decl(c.args[0], start_decl)]
+        ctx.check(len(finds) == 1, rid, cls + '::get#iter-init', g.loc, 'iterator := %s.find(start key)' % store)
+        # infeasible: that find() misses. prune the edge `itr != end()` == false ; `itr == end()` == true
+        def feasible(v, w, lab, _g=g, _gc=gc, _store=store, _cls=cls):
+            if lab is None or not isinstance(lab[1], bool):
+                return True
+            a, pol = q.polar(_gc.cond_node(lab[0]), lab[1])
+            s = a.strip(casts=True)
+            if s.is_call and s.r.get('op') in ('!=', '==') and _gc.blocks[lab[0]].get('tk') == 'IfStmt' and \
+                    any(x.is_call and x.callee and x.callee.get('n') in ('end', 'cend') and x.obj is not None and q.refers_to_member(x.obj, _cls + '::' + _store) for x in s.walk()):
+                found = pol if s.r['op'] == '!=' else (not pol)
+                return found
+            return True
+        # (c) stop test
+        itdecl = None
+        if finds:
+            h2 = finds[0].parent
+            while h2 is not None and h2.k != 'DeclStmt':
+                h2 = h2.parent
+            itdecl = h2.r['decls'][0][0] if h2 is not None else None
+        def key_of_iter(n):
+            s = n.strip(casts=True)
+            return s.k == 'MemberExpr' and s.decl and s.decl.get('n') == 'first' and itdecl is not None and any(
+                x.k == 'DeclRefExpr' and x.declid == itdecl for x in s.walk())
+        stops = q.branches(g, lambda a: a.strip(casts=True).k == 'BinaryOperator' and a.strip(casts=True).op in ('>', '>=', '<', '<=') and
+                           any(key_of_iter(x) for x in a.strip(casts=True).children))
+        okstop = False
+        for (b, a, pol) in stops:
+            s = a.strip(casts=True)
+            l, r = s.children
+            if key_of_iter(l) and s.op == '>' and r.strip(casts=True).k == 'DeclRefExpr':
+                fin = r.strip(casts=True)
+                init = [val for (dn, kind, val) in q.local_defs(g, fin.declid) if kind == 'init' and val is not None]
+                if len(init) == 1 and init[0].strip(casts=True).k == 'ConditionalOperator':
+                    co = init[0].strip(casts=True)
+                    c_, t_, e_ = co.child('cond').strip(casts=True), co.child('then'), co.child('else')
+                    if c_.k == 'BinaryOperator' and c_.op == '==' and q.refers_to_decl(c_.children[0], pto) and c_.children[1].strip(casts=True).value == 0 \
+                            and q.refers_to_decl(e_, pto) and t_.strip(casts=True).k == 'DeclRefExpr':
+                        okstop = True
+                        # the break edge leaves the loop: no callback with a record afterwards
+        ctx.check(okstop, rid, cls + '::get#stop', g.loc, 'iteration stops when key > (to == 0 ? last : to)')
+        # ascending step
+        steps = [n for n in g.all_nodes() if n.is_call and n.r.get('op') == '++' and itdecl is not None and n.obj is not None and q.refers_to_decl(n.obj, itdecl) or
+                 (n.is_call and n.r.get('op') == '++' and itdecl is not None and n.args and q.refers_to_decl(n.args[0], itdecl))]
+        ctx.check(len(steps) == 1, rid, cls + '::get#step', g.loc, 'the iterator only moves forward (++), once per record')
+        # (e) callback gets the iterator's own key
+        recs = 0
+        for cb in cbs:
+            a0 = cb.args[0].strip(casts=True)
+            org = q.origins(g, a0) if a0.k == 'DeclRefExpr' else [('expr', a0)]
+            for (k, n) in org:
+                if n is None:
+                    continue
+                pair = n.strip(casts=True)
+                if pair.is_call and len(pair.args) == 2 and pair.args[0].strip(casts=True).value != 0:
+                    recs += 1
+                    ctx.check(key_of_iter(pair.args[0]), rid, cls + '::get#record.key', cb.loc, 'the callback is given the iterator\'s own key')
+                    second = pair.args[1]
+                    if cls.endswith('MemoryPersister'):
+                        s2 = second.strip(casts=True)
+                        ctx.check(s2.k == 'MemberExpr' and s2.decl.get('n') == 'second' and any(x.k == 'DeclRefExpr' and x.declid == itdecl for x in s2.walk()),
+                                  rid, cls + '::get#record.bytes', cb.loc, 'the callback is given the bytes stored under that key')
+                    else:
+                        rd = [c for c in g.calls() if c.callee_qp == 'read']
+                        sk = [c for c in g.calls() if c.callee_qp == 'lseek']
+                        good = len(rd) == 1 and len(sk) == 1 and gc.dominates(gc.vertex_of(sk[0]), gc.vertex_of(rd[0])) and \
+                            gc.dominates(gc.vertex_of(rd[0]), gc.vertex_of(cb))
+                        if good:
+                            buf = rd[0].args[1].strip(casts=True)
+                            sz = rd[0].args[2]
+                            off = sk[0].args[1]
+                            good = (any(x.k == 'MemberExpr' and x.decl.get('n') == '_size' for x in sz.walk()) and
+                                    any(x.k == 'MemberExpr' and x.decl.get('n') == '_offset' for x in off.walk()) and
+                                    any(x.k == 'DeclRefExpr' and x.declid == itdecl for x in sz.walk()) and
+                                    any(x.k == 'DeclRefExpr' and x.declid == itdecl for x in off.walk()) and
+                                    any(x.k == 'DeclRefExpr' and x.declid == buf.declid for x in second.walk()) and
+                                    any(x.k == 'MemberExpr' and x.decl.get('n') == '_size' for x in second.walk()))
+                        ctx.check(good, rid, cls + '::get#record.bytes', cb.loc,
+                                  'the callback is given exactly _size bytes read at the record\'s _offset')
+        ctx.check(recs == 1, rid, cls + '::get#record.once', g.loc, 'one record callback site')
+        # (d) completion on every feasible normal exit
+        nv = q.verts(gc, nmr)
+        p = q.escape_path(gc, [gc.entry], nv, edge_ok=feasible)
+        ctx.check(p is None, rid, cls + '::get#completion.flag', g.loc, '`_no_more_records = true` on every feasible path to a return',
+                  'a path returns without signalling completion', gc.describe_path(p) if p else None)
+        for w in nmr:
+            after = [x for (x, lab) in gc.succ[gc.vertex_of(w)]]
+            p = q.escape_path(gc, after, q.verts(gc, cbs), edge_ok=feasible)
+            ctx.check(p is None, rid, cls + '::get#completion.call@%d' % nmr.index(w), w.loc, 'the completion flag is delivered through the callback before returning')
+        # supporting fact for the pruned exit
+        fh = prog.fn1(cls + '::find_nearest_highest_seqnum')
+        ctx.saw(fh)
+        fc = fh.cfg
+        rets = [n for (v, kind, n) in fc.exits() if kind == 'return']
+        okf = True
+        for r in rets:
+            if q.return_value(r) == 0:
+                continue
+            atoms = q.controlling_atoms(fh, r)
+            okf = okf and any(a.is_call and a.r.get('op') == '!=' and pol and any(x.is_call and x.callee and x.callee.get('n') in ('end', 'cend') for x in a.walk())
+                              for a, pol in atoms) and r.children[0].strip(casts=True).k == 'MemberExpr'
+        ctx.check(okf and len(rets) >= 2, rid, cls + '::find_nearest_highest_seqnum#found-only', fh.loc,
+                  'a non-zero result is always the key of an entry that find() located (so the later find() cannot miss)')
+
+
+
 def run(ctx):
     prog = Program(UNITS)
     ctx.units.update(UNITS)
@@ -99,136 +233,7 @@ def run(ctx):
     ctx.check(new43[0].child('init').strip().args[0].strip(casts=True).value == 1, 'R18.1', S + 'send_process#possdup.value', new43[0].loc,
               'the flag added is PossDupFlag=Y')
 
-    # ---------------- R18.2 sibling range getters
-    for cls, store in (('FIX8::MemoryPersister', '_store'), ('FIX8::FilePersister', '_index')):
-        g = prog.fn1(cls + '::get', sig='Session &')
-        ctx.saw(g)
-        gc = g.cfg
-        pfrom, pto, psess, pcb = g.param_ids
-        cbs = _memberfn_callback_calls(g, pcb)
-        ctx.need(len(cbs) >= 3, '%s::get: callback invocations not found' % cls)
-        nmr = [w for (w, m) in q.member_writes(g, RC + '_no_more_records') if w.children[1].strip(casts=True).value == 1]
-        ctx.need(nmr, '%s::get: no store `_no_more_records = true`' % cls)
-        # (a) start key
-        fnh = g.calls_to(cls + '::find_nearest_highest_seqnum')
-        okstart = False
-        if len(fnh) == 1:
-            a0, a1 = fnh[0].args
-            lastdefs = q.origins(g, a1, definite_out_calls=(cls + '::get_last_seqnum',))
-            okstart = q.refers_to_decl(a0, pfrom) and bool(lastdefs) and all(k == 'out' and n.callee_qp == cls + '::get_last_seqnum' for k, n in lastdefs)
-        ctx.check(okstart, 'R18.2', cls + '::get#start', g.loc, 'iteration starts at find_nearest_highest_seqnum(from, get_last_seqnum())')
-        holder = fnh[0].parent
-        while holder is not None and holder.k != 'DeclStmt':
-            holder = holder.parent
-        start_decl = None
-        if holder is not None:
-            for d, init in holder.r['decls']:
-                if init >= 0 and any(x == fnh[0] for x in g.node(init).walk()):
-                    start_decl = d
-        finds = [c for c in g.calls() if c.callee is not None and c.callee.get('n') == 'find' and c.obj is not None and
-                 q.refers_to_member(c.obj, cls + '::' + store) and c.args and start_decl is not None and q.refers_to_decl(c.args[0], start_decl)]
-        ctx.check(len(finds) == 1, 'R18.2', cls + '::get#iter-init', g.loc, 'iterator := %s.find(start key)' % store)
-        # infeasible: that find() misses. prune the edge `itr != end()` == false ; `itr == end()` == true
-        def feasible(v, w, lab, _g=g, _gc=gc, _store=store, _cls=cls):
-            if lab is None or not isinstance(lab[1], bool):
-                return True
-            a, pol = q.polar(_gc.cond_node(lab[0]), lab[1])
-            s = a.strip(casts=True)
-            if s.is_call and s.r.get('op') in ('!=', '==') and _gc.blocks[lab[0]].get('tk') == 'IfStmt' and \
-                    any(x.is_call and x.callee and x.callee.get('n') in ('end', 'cend') and x.obj is not None and q.refers_to_member(x.obj, _cls + '::' + _store) for x in s.walk()):
-                found = pol if s.r['op'] == '!=' else (not pol)
-                return found
-            return True
-        # (c) stop test
-        itdecl = None
-        if finds:
-            h2 = finds[0].parent
-            while h2 is not None and h2.k != 'DeclStmt':
-                h2 = h2.parent
-            itdecl = h2.r['decls'][0][0] if h2 is not None else None
-        def key_of_iter(n):
-            s = n.strip(casts=True)
-            return s.k == 'MemberExpr' and s.decl and s.decl.get('n') == 'first' and itdecl is not None and any(
-                x.k == 'DeclRefExpr' and x.declid == itdecl for x in s.walk())
-        stops = q.branches(g, lambda a: a.strip(casts=True).k == 'BinaryOperator' and a.strip(casts=True).op in ('>', '>=', '<', '<=') and
-                           any(key_of_iter(x) for x in a.strip(casts=True).children))
-        okstop = False
-        for (b, a, pol) in stops:
-            s = a.strip(casts=True)
-            l, r = s.children
-            if key_of_iter(l) and s.op == '>' and r.strip(casts=True).k == 'DeclRefExpr':
-                fin = r.strip(casts=True)
-                init = [val for (dn, kind, val) in q.local_defs(g, fin.declid) if kind == 'init' and val is not None]
-                if len(init) == 1 and init[0].strip(casts=True).k == 'ConditionalOperator':
-                    co = init[0].strip(casts=True)
-                    c_, t_, e_ = co.child('cond').strip(casts=True), co.child('then'), co.child('else')
-                    if c_.k == 'BinaryOperator' and c_.op == '==' and q.refers_to_decl(c_.children[0], pto) and c_.children[1].strip(casts=True).value == 0 \
-                            and q.refers_to_decl(e_, pto) and t_.strip(casts=True).k == 'DeclRefExpr':
-                        okstop = True
-                        # the break edge leaves the loop: no callback with a record afterwards
-        ctx.check(okstop, 'R18.2', cls + '::get#stop', g.loc, 'iteration stops when key > (to == 0 ? last : to)')
-        # ascending step
-        steps = [n for n in g.all_nodes() if n.is_call and n.r.get('op') == '++' and itdecl is not None and n.obj is not None and q.refers_to_decl(n.obj, itdecl) or
-                 (n.is_call and n.r.get('op') == '++' and itdecl is not None and n.args and q.refers_to_decl(n.args[0], itdecl))]
-        ctx.check(len(steps) == 1, 'R18.2', cls + '::get#step', g.loc, 'the iterator only moves forward (++), once per record')
-        # (e) callback gets the iterator's own key
-        recs = 0
-        for cb in cbs:
-            a0 = cb.args[0].strip(casts=True)
-            org = q.origins(g, a0) if a0.k == 'DeclRefExpr' else [('expr', a0)]
-            for (k, n) in org:
-                if n is None:
-                    continue
-                pair = n.strip(casts=True)
-                if pair.is_call and len(pair.args) == 2 and pair.args[0].strip(casts=True).value != 0:
-                    recs += 1
-                    ctx.check(key_of_iter(pair.args[0]), 'R18.2', cls + '::get#record.key', cb.loc, 'the callback is given the iterator\'s own key')
-                    second = pair.args[1]
-                    if cls.endswith('MemoryPersister'):
-                        s2 = second.strip(casts=True)
-                        ctx.check(s2.k == 'MemberExpr' and s2.decl.get('n') == 'second' and any(x.k == 'DeclRefExpr' and x.declid == itdecl for x in s2.walk()),
-                                  'R18.2', cls + '::get#record.bytes', cb.loc, 'the callback is given the bytes stored under that key')
-                    else:
-                        rd = [c for c in g.calls() if c.callee_qp == 'read']
-                        sk = [c for c in g.calls() if c.callee_qp == 'lseek']
-                        good = len(rd) == 1 and len(sk) == 1 and gc.dominates(gc.vertex_of(sk[0]), gc.vertex_of(rd[0])) and \
-                            gc.dominates(gc.vertex_of(rd[0]), gc.vertex_of(cb))
-                        if good:
-                            buf = rd[0].args[1].strip(casts=True)
-                            sz = rd[0].args[2]
-                            off = sk[0].args[1]
-                            good = (any(x.k == 'MemberExpr' and x.decl.get('n') == '_size' for x in sz.walk()) and
-                                    any(x.k == 'MemberExpr' and x.decl.get('n') == '_offset' for x in off.walk()) and
-                                    any(x.k == 'DeclRefExpr' and x.declid == itdecl for x in sz.walk()) and
-                                    any(x.k == 'DeclRefExpr' and x.declid == itdecl for x in off.walk()) and
-                                    any(x.k == 'DeclRefExpr' and x.declid == buf.declid for x in second.walk()) and
-                                    any(x.k == 'MemberExpr' and x.decl.get('n') == '_size' for x in second.walk()))
-                        ctx.check(good, 'R18.2', cls + '::get#record.bytes', cb.loc,
-                                  'the callback is given exactly _size bytes read at the record\'s _offset')
-        ctx.check(recs == 1, 'R18.2', cls + '::get#record.once', g.loc, 'one record callback site')
-        # (d) completion on every feasible normal exit
-        nv = q.verts(gc, nmr)
-        p = q.escape_path(gc, [gc.entry], nv, edge_ok=feasible)
-        ctx.check(p is None, 'R18.2', cls + '::get#completion.flag', g.loc, '`_no_more_records = true` on every feasible path to a return',
-                  'a path returns without signalling completion', gc.describe_path(p) if p else None)
-        for w in nmr:
-            after = [x for (x, lab) in gc.succ[gc.vertex_of(w)]]
-            p = q.escape_path(gc, after, q.verts(gc, cbs), edge_ok=feasible)
-            ctx.check(p is None, 'R18.2', cls + '::get#completion.call@%d' % nmr.index(w), w.loc, 'the completion flag is delivered through the callback before returning')
-        # supporting fact for the pruned exit
-        fh = prog.fn1(cls + '::find_nearest_highest_seqnum')
-        ctx.saw(fh)
-        fc = fh.cfg
-        rets = [n for (v, kind, n) in fc.exits() if kind == 'return']
-        okf = True
-        for r in rets:
-            if q.return_value(r) == 0:
-                continue
-            atoms = q.controlling_atoms(fh, r)
-            okf = okf and any(a.is_call and a.r.get('op') == '!=' and pol and any(x.is_call and x.callee and x.callee.get('n') in ('end', 'cend') for x in a.walk())
-                              for a, pol in atoms) and r.children[0].strip(casts=True).k == 'MemberExpr'
-        ctx.check(okf and len(rets) >= 2, 'R18.2', cls + '::find_nearest_highest_seqnum#found-only', fh.loc,
-                  'a non-zero result is always the key of an entry that find() located (so the later find() cannot miss)')
+    range_get_rules(ctx, prog, 'R18.2')
 
     # ---------------- R18.3 gap fill numbering
     n_gf = 0
